@@ -992,7 +992,8 @@ class Result:
             family = value.get('family',lrn_id)
             params = [f'{k}={v}' for k,v in value.items() if k and k not in ['family','learner_id'] and v is not Missing ]
             params = f"({', '.join(params)})" if params else ''
-            value['full_name'] = f"{lrn_id}. {family}{params}" if family != 'vw' else f"{lrn_id}. {family}({value['args']}, seed={value['seed']})"
+            is_vw  = family == 'vw' and all(value.get(k,Missing) is not Missing for k in ['args','seed'])
+            value['full_name'] = f"{lrn_id}. {family}{params}" if not is_vw else f"{lrn_id}. {family}({value['args']}, seed={value['seed']})"
 
         self._plotter = MatplotPlotter()
 
